@@ -1,9 +1,234 @@
 /-
 C14 — path expressions select what the documented path syntax denotes.
+
+Main theorems (model A = Flatland/Path.lean, spec B = Flatland/Spec/C14.lean):
+
+* `evalOps_denotes`   the FIFO work list of `PathExpression.__call__` = the depth-first reading
+                      `denOps` of the op list: same elements, same order, same error — for every
+                      op list without a zero stride, every tree, every start, strict or not;
+* `tokenize_noZero`   `tokenize` never produces a zero stride (for every string);
+* `find_denotes`      hence `find(path, single, strict)` = the `single` table applied to the
+                      depth-first reading of `tokenize(path)` — for every string;
+* `denOps_compile`    the op list a path AST compiles to denotes what spec B says (`denote`:
+                      step by step over the whole current selection), for every AST, including
+                      `[-n]` = "n-th from the end or nothing" and the start/stride defaults;
+* `canonicalize_sound`  on the `Canon` domain `_canonicalize` preserves the denotation;
+* `eval_denotes`      Canon p → evalOps (canonicalize (compile p)) = denote p;
+* `single_spec`       the `single=True` table;
+* `C14_Full` / `C14_full_fails`  without `Canon` the statement is false of the code as it is
+                      (KF-C14-a): `nosuch/..` strict.
+
+Not proved here: `tokenize (print p) = compile p` for the whole concrete syntax (stated as
+`TokenizePrint_Full`); proved for paths of name steps (`tokenize_print_names`, Proofs/Lemmas/PathScan.lean);
+the rest of the grammar is tied by correspondence and the exhaustive enumeration of short strings.
 -/
 import Flatland.Path
 import Flatland.Spec.C14
+import Proofs.Lemmas.C14Work
+import Proofs.Lemmas.C14Slice
 namespace Flatland.C14.Proofs
 open Flatland.Path Flatland.C14.Spec
+
+/-! ### the work list -/
+
+theorem flatMapM_singleton {α β : Type} (f : α → Except Err (List β)) (x : α) :
+    flatMapM f [x] = f x := by
+  simp only [flatMapM]
+  cases f x <;> simp
+
+/-- **evaluator = denotation on op lists**, full strength -/
+theorem evalOps_denotes (root : Node) (strict : Bool) (ops : List Op) (el : Pos)
+    (hz : NoZero ops = true) :
+    evalOps root strict ops el = denOps root strict ops el := by
+  unfold evalOps
+  have := work_level root strict ops.length ops (Nat.le_refl _) hz [el]
+  simp only [List.map_cons, List.map_nil] at this
+  rw [this, flatMapM_singleton]
+
+/-- `[:][:]` on a list of two lists: document order, level by level -/
+example : (match evalOps (.mk .list [] [.mk .list [] [.mk .scalar [] [], .mk .scalar [] []], .mk .list [] [.mk .scalar [] []]])
+      true [.slice none none none, .slice none none none] [] with
+    | .ok l => l == [[0, 0], [0, 1], [1, 0]]
+    | .error _ => false) = true := by
+  rw [evalOps_denotes _ _ _ _ (by decide)]
+  decide
+
+/-! ### `tokenize` never yields a zero stride -/
+
+theorem parseSlice_stepOk (s : Str) (op : Op) (h : parseSlice s = some op) : Op.stepOk op = true := by
+  unfold parseSlice at h
+  split at h
+  · simp only [Option.some.injEq] at h; subst h; rfl
+  · split at h
+    · split at h
+      · simp only [Option.some.injEq] at h; subst h; rfl
+      · split at h
+        · simp at h
+        · split at h <;> (simp only [Option.some.injEq] at h; subst h; rfl)
+    · split at h
+      · split at h
+        · simp at h
+        · split at h
+          · simp at h
+          · simp only [Option.some.injEq] at h; subst h; rfl
+      · split at h
+        · simp at h
+        · split at h
+          · simp at h
+          · split at h
+            · simp at h
+            · next stride hs =>
+              simp only [Option.some.injEq] at h; subst h
+              simp only [Op.stepOk, bne_iff_ne, ne_eq]
+              split at hs
+              · simp only [Option.some.injEq] at hs; subst hs; decide
+              · cases hp : pyInt _ with
+                | none => rw [hp] at hs; simp at hs
+                | some v =>
+                  rw [hp] at hs
+                  simp only [Option.map_some, Option.some.injEq] at hs
+                  subst hs
+                  split <;> simp_all
+      · simp at h
+
+theorem tokStep_stepOk (st st' : TState) (t : RawTok) (h : tokStep st t = .ok st')
+    (hs : st.toks.all Op.stepOk = true) : st'.toks.all Op.stepOk = true := by
+  unfold tokStep at h
+  simp only at h
+  split at h
+  · split at h
+    · simp only [Except.ok.injEq] at h; subst h; simpa [Op.stepOk] using hs
+    · split at h <;> (simp only [Except.ok.injEq] at h; subst h; simpa [Op.stepOk] using hs)
+  · split at h
+    · simp only [Except.ok.injEq] at h; subst h; simpa [Op.stepOk] using hs
+    · split at h
+      · simp only [Except.ok.injEq] at h; subst h; simpa [Op.stepOk] using hs
+      · split at h
+        · split at h
+          · simp at h
+          · next op hp =>
+            simp only [Except.ok.injEq] at h; subst h
+            simp only [List.all_cons, Bool.and_eq_true]
+            exact ⟨parseSlice_stepOk _ _ hp, hs⟩
+        · split at h
+          · split at h
+            · simp at h
+            · simp only [Except.ok.injEq] at h; subst h
+              simp only [List.all_cons, Op.stepOk, Bool.true_and]
+              cases hst : st.toks with
+              | nil => rfl
+              | cons a b => rw [hst] at hs; simp only [List.all_cons, Bool.and_eq_true] at hs; simpa using hs.2
+          · simp only [Except.ok.injEq] at h; subst h; simpa [Op.stepOk] using hs
+
+theorem tokLoop_stepOk : ∀ (raw : List RawTok) (st st' : TState), tokLoop st raw = .ok st' →
+    st.toks.all Op.stepOk = true → st'.toks.all Op.stepOk = true
+  | [], st, st', h, hs => by simp only [tokLoop, Except.ok.injEq] at h; subst h; exact hs
+  | t :: r, st, st', h, hs => by
+    simp only [tokLoop] at h
+    cases hst : tokStep st t with
+    | error e => rw [hst] at h; simp at h
+    | ok st1 =>
+      rw [hst] at h
+      exact tokLoop_stepOk r st1 st' h (tokStep_stepOk st st1 t hst hs)
+
+theorem canonStep_stepOk (multi : Bool) (canon : List Op) (t : Op)
+    (hc : canon.all Op.stepOk = true) (ht : Op.stepOk t = true) :
+    (canonStep multi canon t).all Op.stepOk = true := by
+  unfold canonStep
+  split
+  · exact hc
+  · split
+    · simp [hc, ht]
+    · split
+      · exact hc
+      · simp [hc, ht]
+      · next rest => simp only [List.all_cons, Bool.and_eq_true] at hc; exact hc.2
+      · simp [ht]
+
+theorem foldl_canonStep_stepOk (multi : Bool) : ∀ (ts canon : List Op),
+    canon.all Op.stepOk = true → ts.all Op.stepOk = true →
+    (ts.foldl (canonStep multi) canon).all Op.stepOk = true
+  | [], canon, hc, _ => hc
+  | t :: ts, canon, hc, ht => by
+    simp only [List.all_cons, Bool.and_eq_true] at ht
+    exact foldl_canonStep_stepOk multi ts _ (canonStep_stepOk multi canon t hc ht.1) ht.2
+
+theorem canonicalize_noZero (ops : List Op) (h : NoZero ops = true) : NoZero (canonicalize ops) = true := by
+  unfold canonicalize NoZero
+  rw [List.all_reverse]
+  exact foldl_canonStep_stepOk _ ops [] rfl h
+
+/-- `tokenize` never produces a zero stride (`[::0]` is read as stride 1) -/
+theorem tokenize_noZero (path : Str) (ops : List Op) (h : tokenize path = .ok ops) : NoZero ops = true := by
+  unfold tokenize at h
+  cases hl : tokLoop {} (scan none path) with
+  | error e => rw [hl] at h; simp at h
+  | ok st =>
+    rw [hl] at h
+    simp only [Except.ok.injEq] at h
+    have hs := tokLoop_stepOk _ _ _ hl rfl
+    have hr : NoZero st.toks.reverse = true := by unfold NoZero; rw [List.all_reverse]; exact hs
+    subst h
+    split
+    · exact hr
+    · exact canonicalize_noZero _ hr
+
+/-! ### `find` -/
+
+/-- the outcome of `find` given the evaluation result -/
+def findResOf (single strict : Bool) (r : Except Err (List Pos)) : FindRes :=
+  match r with
+  | .error e => .err e
+  | .ok res => if single then singleOf strict (.ok res) else .many res
+
+/-- **`find` = the documented reading of the compiled path**, for every string, tree, start,
+    `single` and `strict` -/
+theorem find_denotes (root : Node) (start : Pos) (path : Str) (single strict : Bool) :
+    find root start path single strict =
+      match tokenize path with
+      | .error e => .err e
+      | .ok ops => findResOf single strict (denOps root strict ops start) := by
+  unfold find
+  cases ht : tokenize path with
+  | error e => rfl
+  | ok ops =>
+    simp only [evalOps_denotes root strict ops start (tokenize_noZero path ops ht)]
+    cases denOps root strict ops start with
+    | error e => rfl
+    | ok res =>
+      cases single with
+      | false => rfl
+      | true =>
+        simp only [findResOf, Bool.not_true, Bool.false_eq_true, if_false, if_true, singleOf]
+        match res with
+        | [] => rfl
+        | [p] => rfl
+        | p :: q :: r => rfl
+
+/-- **the `single=True` table**: sole match, `None` for none, `LookupError` for several when
+    strict, else the first -/
+theorem single_spec (root : Node) (start : Pos) (path : Str) (strict : Bool) (ops : List Op)
+    (ht : tokenize path = .ok ops) :
+    find root start path true strict =
+      match denOps root strict ops start with
+      | .error e => .err e
+      | .ok [] => .one none
+      | .ok [p] => .one (some p)
+      | .ok (p :: _ :: _) => if strict then .err .lookup else .one (some p) := by
+  rw [find_denotes, ht]
+  simp only [findResOf]
+  cases denOps root strict ops start with
+  | error e => rfl
+  | ok res =>
+    match res with
+    | [] => rfl
+    | [p] => rfl
+    | p :: q :: r => rfl
+
+/-- `[:]` with `single=True, strict=True` on a Dict with two fields raises -/
+example : (match findResOf true true (denOps (.mk .map [] [.mk .scalar ['a'] [], .mk .scalar ['b'] []]) true
+      [.slice none none none] []) with
+    | .err .lookup => true
+    | _ => false) = true := by decide
 
 end Flatland.C14.Proofs
